@@ -117,8 +117,9 @@ def check_shape(t, shape, rot=0, only=None, extras=True, kind="node"):
     idm = tree.IdMap(nodes)
     # custom functions, options, indent: verbatim
     namef = lambda nd: "id%d" % idm(nd)  # noqa
-    nodef = lambda nd: '("%s")' % nd.name  # noqa
-    edgef = lambda a, b: "--%d-->" % idm(b) if idm(b) % 2 else "---"  # noqa
+    # an empty string is a legal result (a node declared by its identifier only) and must appear verbatim
+    nodef = lambda nd: ('("%s")' % nd.name) if idm(nd) % 3 else ""  # noqa
+    edgef = lambda a, b: ("--%d-->" % idm(b) if idm(b) % 2 else "---") if idm(b) % 3 else ""  # noqa
     options = ["%% comment", "classDef x fill:#f9f;"]
     for indent in (0, 3):
         for start in (0, m.n - 1):
@@ -127,8 +128,8 @@ def check_shape(t, shape, rot=0, only=None, extras=True, kind="node"):
             lines = list(e)
             ind = " " * indent
             declared, edges, _ = reference(m, start, (), (), None)
-            exp = ["flowchart LR"] + [ind + o for o in options] + [ind + "id%d" % v + '("%s")' % names[v] for v in declared]
-            exp_edges = [ind + "id%d" % p + ("--%d-->" % c if c % 2 else "---") + "id%d" % c for p, c in edges]
+            exp = ["flowchart LR"] + [ind + o for o in options] + [ind + "id%d" % v + (('("%s")' % names[v]) if v % 3 else "") for v in declared]
+            exp_edges = [ind + "id%d" % p + (("--%d-->" % c if c % 2 else "---") if c % 3 else "") + "id%d" % c for p, c in edges]
             t.c["evaluations"] += 1
             t.c["custom_function_exports"] += 1
             if lines[: len(exp)] != exp or sorted(lines[len(exp):]) != sorted(exp_edges):
@@ -283,6 +284,7 @@ def run(tier):
     items = [(s, r) for s in tree.shapes_upto(nmax - 1) for r in ((0, 3) if tier == "quick" else (0, 3, 7))]
     items += [(s, 1 + k % 5) for k, s in enumerate(tree.plane_trees(nmax))]
     items += [(s, 2, kind) for kind in ("eqhash", "falsy", "weird") for s in tree.shapes_upto(nmax - 1)]
+    items += [(s, 9) for s in tree.shapes_upto(nmax - 1)]   # non-string names
     t = core.Tally()
     core.run_pool([(MOD, "job", {"items": [it], "extras": True}) for it in items[::-1]], 0, into=t)
     core.run_pool([(MOD, "job", {"items": c, "extras": False}) for c in core.chunks([(s, 1) for s in tree.shapes_upto(3)], core.NPROC)], 1, into=t)
